@@ -716,7 +716,9 @@ func genSSADoc(t *rapid.T, write bool) (ssaDoc, map[string]bool) {
 		}
 	}
 	ns := rapid.SampledFrom([]int{0, 1, 1, 2, 3, 4}).Draw(t, "nstyles")
-	names := []string{"Default", "Alt", "top style", "S-4"}
+	// names that tie or cycle under "natural" orderings, and a name that itself starts with '*'
+	namePool := [][]string{{"Default", "Alt", "top style", "S-4"}, {"7", "07", "10", "1a"}, {"2", "10", "1a", "*Star"}, {"Default", "*Default2", "a1", "a01"}}
+	names := rapid.SampledFrom(namePool).Draw(t, "names")
 	for i := 0; i < ns; i++ {
 		sc := cols
 		if write && rapid.Bool().Draw(t, "hetero") {
